@@ -62,9 +62,10 @@ type Do struct {
 }
 
 type stepBind struct {
-	sym    slip.Symbol
-	step   slip.Object
-	result slip.Object
+	sym     slip.Symbol
+	step    slip.Object
+	hasStep bool
+	result  slip.Object
 }
 
 // Call the function with the arguments provided.
@@ -101,11 +102,16 @@ func (f *Do) Call(s *slip.Scope, args slip.List, depth int) (result slip.Object)
 				// Anything other than ReturnResult or GoTo just continues.
 			}
 		}
+		// A variable without a step form keeps its value.
 		for _, sb := range steps {
-			sb.result = ns.Eval(sb.step, d2)
+			if sb.hasStep {
+				sb.result = ns.Eval(sb.step, d2)
+			}
 		}
 		for _, sb := range steps {
-			ns.UnsafeLet(sb.sym, sb.result)
+			if sb.hasStep {
+				ns.UnsafeLet(sb.sym, sb.result)
+			}
 		}
 	}
 	return
@@ -140,6 +146,7 @@ func setupDo(s, ns *slip.Scope, args slip.List, depth int) (steps []*stepBind, t
 				// they are evaluated in apparent parallel.
 				ns.UnsafeLet(sym, slip.EvalArg(s, tb, 1, depth))
 				if 2 < len(tb) {
+					sb.hasStep = true
 					sb.step = tb[2]
 					if list, ok := sb.step.(slip.List); ok {
 						sb.step = slip.ListToFunc(s, list, depth)
